@@ -15,8 +15,8 @@ use std::panic::AssertUnwindSafe;
 use std::sync::Arc;
 use tensor_store::{HNSWDistanceMetric, ScalarValue, TensorValue};
 use vector_engine::{
-    DistanceMetric, FilterCondition, FilterValue, FilteredSearchConfig, HNSWConfig,
-    HNSWIndex, VectorCollectionConfig, VectorEngine, VectorError,
+    DistanceMetric, EmbeddingInput, FilterCondition, FilterValue, FilteredSearchConfig, HNSWConfig,
+    HNSWIndex, Pagination, VectorCollectionConfig, VectorEngine, VectorEngineConfig, VectorError,
 };
 
 type Md = Vec<(String, i64)>;
@@ -153,6 +153,11 @@ enum Op {
     SearchF { q: Vec<i64>, k: usize, strat: Strat, os: usize, f: F },
     CSearch { c: String, q: Vec<i64>, k: usize },
     CSearchF { c: String, q: Vec<i64>, k: usize, strat: Strat, os: usize, f: F },
+    UpdMeta { key: String, md: Md },
+    RmField { key: String, field: String },
+    BatchStore { inputs: Vec<(String, Vec<i64>)> },
+    /// `search_similar_paginated(q, k, Pagination { skip, limit, count_total: true })`
+    SearchP { q: Vec<i64>, k: usize, skip: usize, limit: Option<usize> },
     /// harness-internal (never sent to the model): `invalidate_hnsw_cache`, used only to confirm
     /// that a violation is caused by a stale cache before charging it to a mutation
     Invalidate { c: Option<String> },
@@ -201,6 +206,13 @@ impl Op {
             Op::SearchF { q, k, strat, os, f } => format!("searchf {} {k} {} {os} {}", ints(q), strat.name(), f.rpn()),
             Op::CSearch { c, q, k } => format!("csearch {c} {} {k}", ints(q)),
             Op::CSearchF { c, q, k, strat, os, f } => format!("csearchf {c} {} {k} {} {os} {}", ints(q), strat.name(), f.rpn()),
+            Op::UpdMeta { key, md } => format!("updm {key} {}", mds(md)),
+            Op::RmField { key, field } => format!("rmf {key} {field}"),
+            Op::BatchStore { inputs } => format!(
+                "bstore {}",
+                if inputs.is_empty() { "-".to_string() } else { inputs.iter().map(|(k, v)| format!("{k}:{}", ints(v))).collect::<Vec<_>>().join(";") }
+            ),
+            Op::SearchP { q, k, skip, limit } => format!("searchp {} {k} {skip} {}", ints(q), limit.map_or("-".to_string(), |l| l.to_string())),
             Op::Invalidate { .. } => "noop".into(),
         }
     }
@@ -224,13 +236,18 @@ impl Op {
             Op::SearchF { .. } => "search_similar_filtered",
             Op::CSearch { .. } => "search_in_collection",
             Op::CSearchF { .. } => "search_filtered_in_collection",
+            Op::UpdMeta { .. } => "update_metadata",
+            Op::RmField { .. } => "remove_metadata_field",
+            Op::BatchStore { .. } => "batch_store_embeddings",
+            Op::SearchP { .. } => "search_similar_paginated",
             Op::Invalidate { .. } => "invalidate_hnsw_cache",
         }
     }
+    /// changes stored vectors / keys (metadata-only updates do not: the index stays valid)
     fn is_mutation(&self) -> bool {
         matches!(
             self,
-            Op::Store { .. } | Op::StoreMeta { .. } | Op::Del { .. } | Op::BatchDel { .. } | Op::Clear | Op::Drop { .. } | Op::CStore { .. } | Op::CDel { .. }
+            Op::Store { .. } | Op::StoreMeta { .. } | Op::Del { .. } | Op::BatchDel { .. } | Op::Clear | Op::Drop { .. } | Op::CStore { .. } | Op::CDel { .. } | Op::BatchStore { .. }
         )
     }
 }
@@ -359,6 +376,8 @@ struct Runner {
     cfgs: BTreeMap<String, (Option<usize>, Metric)>,
     /// engine calls the harness made on its own behalf during the last `exec` (as lines for the model)
     extra_lines: Vec<String>,
+    /// `total_count` of the last paginated search
+    last_total: Option<usize>,
 }
 
 fn verr(e: &VectorError) -> &'static str {
@@ -370,6 +389,7 @@ fn verr(e: &VectorError) -> &'static str {
         VectorError::CollectionExists(_) => "coll_exists",
         VectorError::CollectionNotFound(_) => "coll_not_found",
         VectorError::SearchTimeout { .. } => "timeout",
+        VectorError::BatchValidationError { .. } => "batch_validation",
         _ => "other",
     }
 }
@@ -385,7 +405,19 @@ fn md_map(md: &Md) -> HashMap<String, TensorValue> {
 
 impl Runner {
     fn new() -> Runner {
-        Runner { eng: VectorEngine::new(), dflt: Space::default(), named: BTreeMap::new(), cfgs: BTreeMap::new(), extra_lines: Vec::new() }
+        Runner::with_engine(VectorEngine::new())
+    }
+    /// `parallel`: the rayon scan paths (`search_parallel`, `search_parallel_with_metric`) from 2 keys on
+    fn new_cfg(parallel: bool) -> Runner {
+        if parallel {
+            let cfg = VectorEngineConfig { parallel_threshold: 2, ..VectorEngineConfig::default() };
+            Runner::with_engine(VectorEngine::with_config(cfg).expect("valid config"))
+        } else {
+            Runner::new()
+        }
+    }
+    fn with_engine(eng: VectorEngine) -> Runner {
+        Runner { eng, dflt: Space::default(), named: BTreeMap::new(), cfgs: BTreeMap::new(), extra_lines: Vec::new(), last_total: None }
     }
     fn repr_of(&self, storage_key: &str) -> String {
         match self.eng.store().get(storage_key) {
@@ -615,6 +647,70 @@ impl Runner {
                     Obs::Plain(format!("err {}", verr(&e)))
                 }
             },
+            Op::UpdMeta { key, md } => match self.eng.update_metadata(key, md_map(md)) {
+                Ok(()) => {
+                    if let Some((_, old)) = self.dflt.items.get_mut(key) {
+                        for (f, v) in md {
+                            match old.iter_mut().find(|(k, _)| k == f) {
+                                Some(e) => e.1 = *v,
+                                None => old.push((f.clone(), *v)),
+                            }
+                        }
+                    }
+                    Obs::Plain("ok".into())
+                }
+                Err(e) => Obs::Plain(format!("err {}", verr(&e))),
+            },
+            Op::RmField { key, field } => match self.eng.remove_metadata_field(key, field) {
+                Ok(()) => {
+                    if let Some((_, old)) = self.dflt.items.get_mut(key) {
+                        old.retain(|(k, _)| k != field);
+                    }
+                    Obs::Plain("ok".into())
+                }
+                Err(e) => Obs::Plain(format!("err {}", verr(&e))),
+            },
+            Op::BatchStore { inputs } => {
+                let ins: Vec<EmbeddingInput> = inputs.iter().map(|(k, v)| EmbeddingInput::new(k.clone(), f32s(v))).collect();
+                match self.eng.batch_store_embeddings(ins) {
+                    Ok(r) => {
+                        for (k, v) in inputs {
+                            self.dflt.items.insert(k.clone(), (v.clone(), vec![]));
+                        }
+                        if !inputs.is_empty() {
+                            self.dflt.mutated(op.tag());
+                        }
+                        if r.stored_keys != inputs.iter().map(|x| x.0.clone()).collect::<Vec<_>>() {
+                            viol.push(Viol { site: op.tag().into(), kind: "stored_keys_differ", what: format!("{:?}", r.stored_keys) });
+                        }
+                        Obs::Plain(format!("ok {}", r.count))
+                    }
+                    Err(e) => Obs::Plain(format!("err {}", verr(&e))),
+                }
+            }
+            Op::SearchP { q, k, skip, limit } => {
+                let qf = f32s(q);
+                let inner = (skip + limit.unwrap_or(*k)).min(*k);
+                let ann = ann_keys(&self.dflt, &qf, inner);
+                let pg = Pagination { skip: *skip, limit: *limit, count_total: true };
+                let res = match self.eng.search_similar_paginated(&qf, *k, pg) {
+                    Ok(p) => {
+                        let total = p.total_count.unwrap_or(usize::MAX);
+                        // has_more is a function of the page and the total
+                        let want_more = limit.is_some() && skip + p.items.len() < total;
+                        if p.has_more != want_more {
+                            viol.push(Viol { site: op.tag().into(), kind: "has_more_inconsistent", what: format!("has_more={} skip={skip} items={} total={total}", p.has_more, p.items.len()) });
+                        }
+                        self.last_total = Some(total);
+                        Ok(p.items.into_iter().map(|x| (x.key, x.score)).collect::<Vec<_>>())
+                    }
+                    Err(e) => Err(verr(&e).to_string()),
+                };
+                if let Ok(r) = &res {
+                    oracle_page(op.tag(), r, q, limit.unwrap_or(usize::MAX), *skip, inner, Metric::Cos, &self.dflt, None, true, viol);
+                }
+                Obs::Search { res, ann }
+            }
             Op::Invalidate { c } => {
                 match c {
                     None => {
@@ -717,7 +813,14 @@ fn ann_keys(sp: &Space, q: &[f32], k: usize) -> Option<Vec<String>> {
 /// query's dimension*; then recall is not claimed.
 #[allow(clippy::too_many_arguments)]
 fn oracle(site: &str, res: &[(String, f32)], q: &[i64], k: usize, m: Metric, sp: &Space, filt: Option<&F>, may_use_index: bool, viol: &mut Vec<Viol>) {
-    if q.is_empty() || k == 0 || nsq(q) == 0 {
+    oracle_page(site, res, q, k, 0, k, m, sp, filt, may_use_index, viol)
+}
+
+/// `res` = results `skip .. skip+k` of a search for the `inner_k` best (plain searches: `skip = 0`,
+/// `inner_k = k`)
+#[allow(clippy::too_many_arguments)]
+fn oracle_page(site: &str, res: &[(String, f32)], q: &[i64], k: usize, skip: usize, inner_k: usize, m: Metric, sp: &Space, filt: Option<&F>, may_use_index: bool, viol: &mut Vec<Viol>) {
+    if q.is_empty() || k == 0 || inner_k == 0 || nsq(q) == 0 {
         return; // outside the property's quantifier (non-zero query, k > 0)
     }
     let mut push = |kind: &'static str, what: String| viol.push(Viol { site: site.to_string(), kind, what });
@@ -775,9 +878,10 @@ fn oracle(site: &str, res: &[(String, f32)], q: &[i64], k: usize, m: Metric, sp:
         })
         .collect();
     cands.sort_by(|x, y| key_cmp(*y, *x));
+    let cands: Vec<(i128, i128)> = cands.into_iter().take(inner_k).skip(skip).collect();
     let want = k.min(cands.len());
     if res.len() < want {
-        push("missed_match", format!("{} results, {} stored vectors qualify (k={k})", res.len(), cands.len()));
+        push("missed_match", format!("{} results, {} stored vectors qualify (k={k}, skip={skip})", res.len(), cands.len()));
     }
     for (i, kr) in keys_of_res.iter().enumerate().take(want) {
         if let Some(kr) = kr {
@@ -859,7 +963,9 @@ fn classes(m: Metric, a: i64, cs: &[(String, i64, i64, bool)], merged: &mut u64)
 }
 
 /// canonical (implementation, model) answer pair for one search + score mismatches
-fn compare_search(rep: &mut Report, stream: &str, op: &Op, res: &Result<Vec<(String, f32)>, String>, ma: &MAns) -> (String, String) {
+/// `page`: `(skip, limit, total_count reported)` of a paginated search — the engine's list is then the
+/// slice `skip .. skip+limit` of the inner answer, and `total_count` the inner answer's length
+fn compare_search(rep: &mut Report, stream: &str, op: &Op, res: &Result<Vec<(String, f32)>, String>, ma: &MAns, page: Option<(usize, Option<usize>, usize)>) -> (String, String) {
     let imp_res = match res {
         Err(e) => return (format!("err {e}"), ma.kind.clone()),
         Ok(r) => r,
@@ -923,7 +1029,15 @@ fn compare_search(rep: &mut Report, stream: &str, op: &Op, res: &Result<Vec<(Str
     } else {
         (0..ma.cut).filter(|i| ma.cands[*i].3).collect()
     };
-    let want: Vec<String> = s_idx.iter().take(ma.k).map(|i| cls[*i].to_string()).collect();
+    let inner: Vec<String> = s_idx.iter().take(ma.k).map(|i| cls[*i].to_string()).collect();
+    let (want, tot): (Vec<String>, String) = match page {
+        None => (inner, String::new()),
+        Some((skip, limit, _)) => {
+            let t = format!(" total={}", inner.len());
+            (inner.into_iter().skip(skip).take(limit.unwrap_or(usize::MAX)).collect(), t)
+        }
+    };
+    let got_tot = page.map_or(String::new(), |(_, _, t)| format!(" total={t}"));
     let got: Vec<String> = imp_res
         .iter()
         .map(|(key, _)| match s_idx.iter().find(|i| &ma.cands[**i].0 == key) {
@@ -932,8 +1046,8 @@ fn compare_search(rep: &mut Report, stream: &str, op: &Op, res: &Result<Vec<(Str
         })
         .collect();
     (
-        format!("n={} classes={}{}", got.len(), got.join(","), if distinct { "" } else { " dup" }),
-        format!("n={} classes={}", want.len(), want.join(",")),
+        format!("n={} classes={}{}{got_tot}", got.len(), got.join(","), if distinct { "" } else { " dup" }),
+        format!("n={} classes={}{tot}", want.len(), want.join(",")),
     )
 }
 
@@ -1109,12 +1223,34 @@ fn gen_seq(g: &mut Gen, focus: u64, rep: &mut Report) -> Vec<Op> {
                     pool.push(v.clone());
                     Op::Store { key, v }
                 }
-                12..=19 => {
+                12..=15 => {
                     let (v, kind) = g.vec_kind(&pool);
                     rep.hit(&format!("vec.{kind}"));
                     pool.push(v.clone());
                     let md = g.md();
                     Op::StoreMeta { key, v, md }
+                }
+                16..=17 => {
+                    let mut md = g.md();
+                    if md.is_empty() {
+                        md.push(("f".into(), g.r.range(0, 3)));
+                    }
+                    Op::UpdMeta { key, md }
+                }
+                18 => Op::RmField { key, field: if g.r.chance(2, 3) { "f" } else { "g" }.to_string() },
+                19 => {
+                    let nb = g.r.below(4) as usize;
+                    let mut inputs = Vec::new();
+                    for _ in 0..nb {
+                        let (v, kind) = g.vec_kind(&pool);
+                        rep.hit(&format!("vec.{kind}"));
+                        let v = if g.r.chance(1, 12) { vec![] } else { v };
+                        if !v.is_empty() {
+                            pool.push(v.clone());
+                        }
+                        inputs.push((g.r.pick(&g.keys).clone(), v));
+                    }
+                    Op::BatchStore { inputs }
                 }
                 20..=26 => Op::Del { key },
                 27..=30 => {
@@ -1124,10 +1260,17 @@ fn gen_seq(g: &mut Gen, focus: u64, rep: &mut Report) -> Vec<Op> {
                 31 => Op::Clear,
                 32..=43 => Op::Build { via_engine: g.r.chance(1, 3) },
                 44..=49 => Op::Get { key },
-                50..=71 => {
+                50..=67 => {
                     let (q, kind) = g.query(&pool);
                     rep.hit(&format!("q.{kind}"));
                     Op::Search { q, k: g.k() }
+                }
+                68..=71 => {
+                    let (q, kind) = g.query(&pool);
+                    rep.hit(&format!("q.{kind}"));
+                    let skip = *g.r.pick(&[0usize, 0, 1, 2, 3, 7]);
+                    let limit = *g.r.pick(&[None, Some(0usize), Some(1), Some(2), Some(2), Some(5)]);
+                    Op::SearchP { q, k: g.k(), skip, limit }
                 }
                 72..=83 => {
                     let (q, kind) = g.query(&pool);
@@ -1183,6 +1326,18 @@ fn gen_seq(g: &mut Gen, focus: u64, rep: &mut Report) -> Vec<Op> {
         // after a mutation, usually look at the thing that was just changed
         let probe = match &op {
             Op::Store { v, .. } | Op::StoreMeta { v, .. } if g.r.chance(2, 3) && nsq(v) > 0 => Some(Op::Search { q: v.clone(), k: 50 }),
+            Op::UpdMeta { md, .. } if g.r.chance(3, 4) && !pool.is_empty() => {
+                let (f, v) = md[0].clone();
+                let strat = *g.r.pick(&[Strat::Auto, Strat::Pre, Strat::Post]);
+                Some(Op::SearchF { q: g.r.pick(&pool).clone(), k: 50, strat, os: 3, f: F::Cmp("eq", f, v) })
+            }
+            Op::RmField { field, .. } if g.r.chance(3, 4) && !pool.is_empty() => {
+                let strat = *g.r.pick(&[Strat::Auto, Strat::Pre, Strat::Post]);
+                Some(Op::SearchF { q: g.r.pick(&pool).clone(), k: 50, strat, os: 3, f: F::Ex(field.clone()) })
+            }
+            Op::BatchStore { inputs } if g.r.chance(2, 3) && inputs.iter().any(|x| nsq(&x.1) > 0) => {
+                inputs.iter().rev().find(|x| nsq(&x.1) > 0).map(|x| Op::Search { q: x.1.clone(), k: 50 })
+            }
             Op::Del { .. } | Op::BatchDel { .. } | Op::Clear if g.r.chance(2, 3) && !pool.is_empty() => Some(Op::Search { q: g.r.pick(&pool).clone(), k: 50 }),
             Op::CStore { c, v, .. } if g.r.chance(2, 3) && nsq(v) > 0 => Some(Op::CSearch { c: c.clone(), q: v.clone(), k: 50 }),
             Op::CDel { c, .. } | Op::Drop { c } if g.r.chance(2, 3) && !pool.is_empty() => Some(Op::CSearch { c: c.clone(), q: g.r.pick(&pool).clone(), k: 50 }),
@@ -1221,7 +1376,9 @@ fn replay_kinds(ops: &[Op]) -> Vec<(usize, String, &'static str)> {
 fn classify(ops: &[Op], at: usize, site: &str, kind: &str) -> String {
     let space_of = |op: &Op| -> Option<String> {
         match op {
-            Op::Store { .. } | Op::StoreMeta { .. } | Op::Del { .. } | Op::BatchDel { .. } | Op::Clear | Op::Build { .. } | Op::Search { .. } | Op::SearchF { .. } | Op::SearchM { .. } => Some(String::new()),
+            Op::Store { .. } | Op::StoreMeta { .. } | Op::Del { .. } | Op::BatchDel { .. } | Op::Clear | Op::Build { .. } | Op::Search { .. } | Op::SearchF { .. } | Op::SearchM { .. } | Op::BatchStore { .. } | Op::SearchP { .. } | Op::UpdMeta { .. } | Op::RmField { .. } => {
+                Some(String::new())
+            }
             Op::Drop { c } | Op::CStore { c, .. } | Op::CDel { c, .. } | Op::CBuild { c } | Op::CSearch { c, .. } | Op::CSearchF { c, .. } => Some(format!("c:{c}")),
             _ => None,
         }
@@ -1273,14 +1430,18 @@ struct Ctx<'a> {
 }
 
 fn run_seq(cx: &mut Ctx, stream: &str, ops: &[Op]) {
-    let mut r = Runner::new();
+    let parallel = fnv(&format!("{stream}{}", ops.len())) % 4 == 0 && !stream.starts_with("directed");
+    if parallel {
+        cx.rep.hit("cfg.parallel_threshold=2");
+    }
+    let mut r = Runner::new_cfg(parallel);
     cx.m.ask("reset");
     let mut nontrivial_search = false;
     let mut mutated = false;
     let mut first_violation: Option<(usize, String, &'static str, String)> = None;
     for (i, op) in ops.iter().enumerate() {
         let live_before = match op {
-            Op::Search { .. } | Op::SearchF { .. } => r.dflt.index_live(),
+            Op::Search { .. } | Op::SearchF { .. } | Op::SearchP { .. } => r.dflt.index_live(),
             Op::CSearch { c, .. } | Op::CSearchF { c, .. } => r.named.get(c).map_or(false, |s| s.index_live()),
             _ => false,
         };
@@ -1290,6 +1451,9 @@ fn run_seq(cx: &mut Ctx, stream: &str, ops: &[Op]) {
         let line = match (&obs, op) {
             (Obs::Search { ann: Some(keys), .. }, Op::Search { q, k }) => format!("search_ann {} {k} {}", ints(q), keys_s(keys)),
             (Obs::Search { ann: Some(keys), .. }, Op::CSearch { c, q, k }) => format!("csearch_ann {c} {} {k} {}", ints(q), keys_s(keys)),
+            (Obs::Search { ann: Some(keys), .. }, Op::SearchP { q, k, skip, limit }) => {
+                format!("searchp_ann {} {k} {skip} {} {}", ints(q), limit.map_or("-".to_string(), |l| l.to_string()), keys_s(keys))
+            }
             _ => op.line(),
         };
         let ans = cx.m.ask(&line);
@@ -1333,7 +1497,11 @@ fn run_seq(cx: &mut Ctx, stream: &str, ops: &[Op]) {
                 if let Err(e) = res {
                     cx.rep.hit(&format!("err.{e}"));
                 }
-                let (a, b) = compare_search(cx.rep, stream, op, res, &ma);
+                let page = match op {
+                    Op::SearchP { skip, limit, .. } => Some((*skip, *limit, r.last_total.unwrap_or(usize::MAX))),
+                    _ => None,
+                };
+                let (a, b) = compare_search(cx.rep, stream, op, res, &ma, page);
                 let sname = format!("{stream}.{}", op.tag());
                 cx.rep.compare(&sname, || json!({"ops": ops_json(&ops[..=i]), "impl_result": format!("{res:?}"), "model_raw": ma.raw}), &a, &b);
             }
@@ -1467,6 +1635,58 @@ fn directed() -> Vec<(&'static str, Vec<Op>)> {
                 Op::CSearchF { c: "c1".into(), q: vec![-1, 0], k: 2, strat: Strat::Pre, os: 3, f: F::Ex("f".into()) },
                 Op::CSearchF { c: "c1".into(), q: vec![0, 0], k: 2, strat: Strat::Pre, os: 3, f: F::Ex("f".into()) },
                 Op::CSearchF { c: "c0".into(), q: vec![0, 0], k: 2, strat: Strat::Pre, os: 3, f: F::Ex("f".into()) },
+            ],
+        ),
+        (
+            "index-then-update-metadata",
+            vec![
+                Op::StoreMeta { key: "a".into(), v: vec![1, 0, 0], md: pf_md(0) },
+                Op::StoreMeta { key: "b".into(), v: vec![0, 1, 0], md: pf_md(0) },
+                b.clone(),
+                Op::UpdMeta { key: "b".into(), md: vec![("f".into(), 1), ("g".into(), 7)] },
+                se(&[1, 0, 0], 5),
+                Op::SearchF { q: vec![1, 0, 0], k: 5, strat: Strat::Post, os: 3, f: F::Cmp("eq", "f".into(), 1) },
+                Op::SearchF { q: vec![1, 0, 0], k: 5, strat: Strat::Pre, os: 3, f: F::Cmp("eq", "f".into(), 1) },
+                Op::RmField { key: "b".into(), field: "f".into() },
+                Op::SearchF { q: vec![1, 0, 0], k: 5, strat: Strat::Post, os: 3, f: F::Ex("f".into()) },
+                Op::SearchF { q: vec![1, 0, 0], k: 5, strat: Strat::Pre, os: 3, f: F::Ex("g".into()) },
+                Op::UpdMeta { key: "zz".into(), md: pf_md(1) },
+                Op::RmField { key: "zz".into(), field: "f".into() },
+                Op::RmField { key: "a".into(), field: "nosuch".into() },
+                se(&[1, 0, 0], 5),
+            ],
+        ),
+        (
+            "index-then-batch-store",
+            vec![
+                s("a", &[1, 0, 0]),
+                s("b", &[0, 1, 0]),
+                b.clone(),
+                Op::BatchStore { inputs: vec![] },
+                se(&[1, 0, 0], 5),
+                Op::BatchStore { inputs: vec![("a".into(), vec![0, 0, 1]), ("c".into(), vec![])] },
+                se(&[1, 0, 0], 5),
+                Op::BatchStore { inputs: vec![("a".into(), vec![0, 0, 1]), ("c".into(), vec![1, 1, 0]), ("a".into(), vec![0, 1, 1])] },
+                se(&[1, 0, 0], 5),
+                Op::Get { key: "a".into() },
+            ],
+        ),
+        (
+            "pagination-pages",
+            vec![
+                s("a", &[4, 0]),
+                s("b", &[4, 1]),
+                s("c", &[4, 2]),
+                s("d", &[4, 3]),
+                s("e", &[0, 1]),
+                Op::SearchP { q: vec![1, 0], k: 5, skip: 0, limit: Some(2) },
+                Op::SearchP { q: vec![1, 0], k: 5, skip: 2, limit: Some(2) },
+                Op::SearchP { q: vec![1, 0], k: 5, skip: 4, limit: Some(2) },
+                Op::SearchP { q: vec![1, 0], k: 3, skip: 1, limit: None },
+                Op::SearchP { q: vec![1, 0], k: 3, skip: 0, limit: Some(0) },
+                Op::SearchP { q: vec![1, 0], k: 3, skip: 9, limit: Some(1) },
+                b.clone(),
+                Op::SearchP { q: vec![1, 0], k: 5, skip: 1, limit: Some(2) },
             ],
         ),
         ("index-longer-query", vec![s("a", &[1, 0, 0]), s("b", &[0, 1, 0]), b.clone(), se(&[1, 0, 0, 5], 5), se(&[0, 1, 0], 5)]),
